@@ -28,8 +28,8 @@ func init() {
 				fills := core.CallSink(ws+"SetPasswordHash", ws+"SetEncryptionFlag", "wallet.SaveSeedInBatch", ws+"SetWalletAccountInBatch", "common/db.Batch.Write")
 				core.FailStops{Fn: fn, Callee: []string{ws + "VerifyPasswordHash"}, Fail: core.OFalse, Idx: -1, Forbidden: fills, Min: 1, Name: "old password hash mismatch"}.Check(r)
 				core.RejectWhen{Fn: fn, Spec: &core.FlowSpec{Assume: func(c *core.Ctx, e ast.Expr) core.Tri {
-					if op, ok := core.CmpAtom(c, e, lenOf(core.IsObj("wallet.Wallet.Password")), core.IsConstInt(0)); ok && op == token.NEQ {
-						return core.True
+					if t := core.AssumeRel(lenOf(core.IsObj("wallet.Wallet.Password")), token.NEQ, core.IsConstInt(0), core.True)(c, e); t != core.Unknown {
+						return t
 					}
 					return core.Unknown
 				}}, Name: "old password differs from the unlocked password", L: core.Mentions("types.ReqWalletSetPasswd.OldPass"), R: core.IsObj("wallet.Wallet.Password"), Rel: token.NEQ, Sentinel: "types.ErrVerifyOldpasswdFail"}.Check(r)
@@ -56,7 +56,7 @@ func init() {
 				if f != nil {
 					c := f.Ctx()
 					ok := false
-					ast.Inspect(f.Body(), func(x ast.Node) bool {
+					core.InspectBody(f, func(x ast.Node) bool {
 						call, isCall := x.(*ast.CallExpr)
 						if !isCall {
 							return true
@@ -103,7 +103,7 @@ func init() {
 					bodies := append([]*core.FuncInfo{f}, f.Closures()...)
 					for _, b := range bodies {
 						c := b.Ctx()
-						ast.Inspect(b.Body(), func(x ast.Node) bool {
+						core.InspectBody(b, func(x ast.Node) bool {
 							if lit, isLit := x.(*ast.FuncLit); isLit && lit != b.Lit {
 								return false
 							}
@@ -150,8 +150,8 @@ func init() {
 				})
 				core.FailStops{Fn: un, Callee: []string{"wallet/common.(*Store).VerifyPasswordHash"}, Fail: core.OFalse, Idx: -1, Forbidden: unlock, Min: 1, Name: "password hash mismatch"}.Check(r)
 				core.RejectWhen{Fn: un, Spec: &core.FlowSpec{Assume: func(c *core.Ctx, e ast.Expr) core.Tri {
-					if op, ok := core.CmpAtom(c, e, lenOf(core.IsObj("wallet.Wallet.Password")), core.IsConstInt(0)); ok && op == token.NEQ {
-						return core.True
+					if t := core.AssumeRel(lenOf(core.IsObj("wallet.Wallet.Password")), token.NEQ, core.IsConstInt(0), core.True)(c, e); t != core.Unknown {
+						return t
 					}
 					return core.Unknown
 				}}, Name: "password differs from the known password", L: core.Mentions("types.WalletUnLock.Passwd"), R: core.IsObj("wallet.Wallet.Password"), Rel: token.NEQ, Sentinel: "types.ErrInputPassword"}.Check(r)
@@ -222,7 +222,7 @@ func init() {
 				}
 				for _, f := range r.W.AllFuncs(pkg) {
 					info := f.Info()
-					ast.Inspect(f.Body(), func(x ast.Node) bool {
+					core.InspectBody(f, func(x ast.Node) bool {
 						call, ok := x.(*ast.CallExpr)
 						if !ok || !secret.Has(core.Callee(info, call)) {
 							return true
@@ -265,7 +265,7 @@ func init() {
 				for _, f := range r.W.AllFuncs(pkg) {
 					c := f.Ctx()
 					var stack []ast.Node
-					ast.Inspect(f.Body(), func(x ast.Node) bool {
+					core.InspectBody(f, func(x ast.Node) bool {
 						if x == nil {
 							stack = stack[:len(stack)-1]
 							return true
@@ -312,7 +312,7 @@ func init() {
 					ok := false
 					for _, cl := range f.Closures() {
 						c := cl.Ctx()
-						ast.Inspect(cl.Body(), func(x ast.Node) bool {
+						core.InspectBody(cl, func(x ast.Node) bool {
 							if call, isCall := x.(*ast.CallExpr); isCall && core.ShortName(core.Callee(c.Info, call)) == "sync/atomic.CompareAndSwapInt32" && len(call.Args) == 3 &&
 								core.IsConstInt(0)(c, call.Args[1]) && core.IsConstInt(1)(c, call.Args[2]) {
 								ok = true
